@@ -139,6 +139,13 @@ def random_params(rng: np.random.Generator) -> dict:
     sr = [float(total * x) for x in w]
     while sr[0] + sr[1] + sr[2] >= 0.98:
         sr = [0.9 * x for x in sr]
+    if rng.random() < 0.12 and sr[0] + sr[1] + sr[2] > 0:
+        # the corner of the admissible box: residuals that sum to just under one (a mobile range of 1e-3 .. 1e-12)
+        eps = 10.0 ** -float(rng.integers(3, 13))
+        f = (1.0 - eps) / (sr[0] + sr[1] + sr[2])
+        sr = [x * f for x in sr]
+        while not (sr[0] + sr[1] + sr[2] < 1.0 and (1.0 - sr[0] - sr[1] - sr[2]) > 0.0):
+            sr = [x * (1.0 - 1e-13) for x in sr]
 
     def km():
         r = rng.random()
